@@ -130,10 +130,10 @@ class DotProductCombinator(Combinator):
                                 "token": element,
                                 "input_ids": [element.persistent_id],
                             }
-                    tag = utils.get_tag([t["token"] for t in schema.values()])
+                    schema_tag = utils.get_tag([t["token"] for t in schema.values()])
                     yield {
                         k: {
-                            "token": t["token"].retag(tag),
+                            "token": t["token"].retag(schema_tag),
                             "input_ids": t["input_ids"],
                         }
                         for k, t in schema.items()
